@@ -297,7 +297,8 @@ def main():
         given = rng.choice([1, 1, 2, 3])
         ch_args = ', '.join([targ()] + [rng.choice(['long', 'Vec<double>', 'short *'])] * (given > 1) + [rng.choice(['bool', 'Vec<int> *'])] * (given > 2))
         pa, pb = (ftype() if rng.random() < 0.7 else targ()), (ftype() if rng.random() < 0.4 else targ())
-        text = ('template<class T> struct Vec {};\n'
+        vec_param = rng.choice(['T', 'E'])          # the same name as Ch's first parameter, or another one
+        text = ('template<class ' + vec_param + '> struct Vec {};\n'
                 'template<class T, class U = %s, class V = %s> struct Ch {\n__published:\n  T *gt;\n  U *gu;\n  V *gv;\n  U *mu();\n  V *mv();\n};\n'
                 'template<class F> struct Holder {\n__published:\n  F *fp;\n};\n'
                 'template<class A, class B> struct Pair {\n__published:\n  A *first;\n  B *second;\n};\n'
@@ -329,8 +330,8 @@ def main():
             open(os.path.join(wd, 'tg.cpp'), 'w').write('#include <type_traits>\n#define __published public\n#include "tg.h"\n' + '\n'.join(asserts[n_] for n_ in names_) + '\n')
             q = vlib.sh(['g++', '-std=gnu++14', '-fsyntax-only', '-w', '-I', wd, os.path.join(wd, 'tg.cpp')])
             return q.returncode == 0, ([l for l in q.stdout.splitlines() if 'error' in l] + [''])[0][-220:]
-        # a defaulted parameter whose default is a template-id naming an earlier parameter (Vec<T>, Vec<U>) is a recorded finding: judged apart
-        dep = [m_ for m_, used, d_ in (('gu', given < 2, dflt_u), ('gv', given < 3, dflt_v)) if used and 'Vec<' in d_]
+        # Vec<T> as a default argument where Vec's own parameter is also called T is a recorded finding (parameters are canonicalised by name): judged apart
+        dep = ['gu'] if (given < 2 and 'Vec<T>' in dflt_u and vec_param == 'T') else []
         if 'gu' in dep and given < 3 and 'U' in dflt_v:
             dep.append('gv')                 # V's default mentions the unsubstituted U
         okG = True
